@@ -273,6 +273,10 @@ def Handler.draw (hd : Handler) (key : Nat) (enc : List UInt8) : List UInt8 × H
     let (imgs, size) := evict hd.cap ((key, enc) :: hd.imgs) (hd.size + enc.length)
     (enc, ⟨imgs, size, hd.cap⟩)
 
+/-- `SixelImageHandler::erase`: writes nothing and leaves the cache alone (what is drawn next paints over
+the old picture; the encoded copy stays available for the next draw) -/
+def Handler.erase (hd : Handler) (_key : Nat) : Handler := hd
+
 /-! ### handing the bytes to the sink
 
 Both branches of `draw` hand their bytes over with `out.write_all(..)?` (`std::io::Write::write_all`): the
